@@ -568,6 +568,66 @@ func (e *effects) update(f *ssa.Function) bool {
 			if handled {
 				return
 			}
+			// sort.Sort / sort.Stable over a sorter object built here: what gets written is the slice the object holds
+			if co != nil && co.Pkg() != nil && co.Pkg().Path() == "sort" && (co.Name() == "Sort" || co.Name() == "Stable") && len(args) > 0 {
+				v := stripIface(args[0])
+				if ld, ok := v.(*ssa.UnOp); ok && ld.Op == token.MUL {
+					v = ld.X
+				}
+				if al, ok := v.(*ssa.Alloc); ok {
+					// the fields whose elements the object's Swap exchanges
+					swapped := map[*types.Var]bool{}
+					if pt, ok := al.Type().(*types.Pointer); ok {
+						ms := f.Prog.MethodSets.MethodSet(types.NewPointer(pt.Elem()))
+						for i := 0; i < ms.Len(); i++ {
+							if ms.At(i).Obj().Name() != "Swap" {
+								continue
+							}
+							if mo, ok := ms.At(i).Obj().(*types.Func); ok {
+								if sw := f.Prog.FuncValue(mo); sw != nil && sw.Blocks != nil {
+									eachInstr(sw, func(_ *ssa.BasicBlock, in2 ssa.Instruction) {
+										if st, ok := in2.(*ssa.Store); ok {
+											if ia, ok := st.Addr.(*ssa.IndexAddr); ok {
+												if fld, _ := loadOfField(ia.X); fld != nil {
+													swapped[fld] = true
+												}
+												if fv, ok := ia.X.(*ssa.Field); ok {
+													if fld, _ := fieldOfVal(fv); fld != nil {
+														swapped[fld] = true
+													}
+												}
+											}
+										}
+									})
+								}
+							}
+						}
+					}
+					marked := false
+					for _, r := range *al.Referrers() {
+						fa, ok := r.(*ssa.FieldAddr)
+						if !ok {
+							continue
+						}
+						if fld, _ := fieldOfAddr(fa); len(swapped) > 0 && !swapped[fld] {
+							continue
+						}
+						for _, r2 := range *fa.Referrers() {
+							if st, ok := r2.(*ssa.Store); ok && st.Addr == ssa.Value(fa) {
+								if _, isSl := st.Val.Type().Underlying().(*types.Slice); isSl {
+									marked = true
+									if e.markWrite(f, st.Val, "sorted through a sorter object") {
+										ch = true
+									}
+								}
+							}
+						}
+					}
+					if marked {
+						return
+					}
+				}
+			}
 			if w, out, known := stdEffect(co, cc); known {
 				for _, i := range w {
 					if i < len(args) && e.markWrite(f, args[i], "library writes") {
